@@ -1,4 +1,4 @@
-import Lemmas.Bundle
+import Lemmas.OptStart
 import Lemmas.Demo
 /-!
 # C07 — single-dash modes follow the documented rewriting; long options ignore the mode
@@ -109,18 +109,22 @@ variable (ext : Ext)
 /-- a head position: no error, no option waiting for a value, not stopped -/
 def AtHead (s : PState) : Prop := s.err = none ∧ s.ctx = .idle
 
+/-- a head position is a position where an option may start; so is the position right behind an
+option that can still take values (`OptStart`, `Lemmas/OptStart.lean`) -/
+theorem AtHead.optStart {s : PState} (h : AtHead s) : OptStart s := ⟨h.1, Or.inl h.2⟩
+
 /-- **Normal mode, whole command line**: replacing the token `-NAME[=V]`, given where an option may
-start and naming a declared option, by `--NAME[=V]` changes nothing observable in the parse result
+start (a head position, or right behind an option that can still take values) and naming a declared option, by `--NAME[=V]` changes nothing observable in the parse result
 (option store, selected command, remaining list, unknown-option log, error, completion list). -/
 theorem normal_rewrite_parse (P : Prog) (pre post : List Str) (name g3 : Str)
     (hn : SName name) (hg : G3 g3)
-    (hh : AtHead (run ext .normal P pre))
+    (hh : OptStart (run ext .normal P pre))
     (hk : Known (run ext .normal P pre) ⟨name, attached g3⟩) :
     ObsEq (parseArgs ext .normal P (pre ++ [chDash :: (name ++ g3)] ++ post))
           (parseArgs ext .normal P (pre ++ [chDash :: chDash :: (name ++ g3)] ++ post)) := by
   apply parse_of_sim
   simp only [List.foldl_cons, List.foldl_nil]
-  exact same_pair_sim ext .normal _ _ _ ⟨name, attached g3⟩ hh.1 hh.2
+  exact same_pair_sim' ext .normal _ _ _ ⟨name, attached g3⟩ hh
     (by rw [isOption_single name g3 .normal hn hg]; rfl)
     (isOption_long name g3 .normal hn.ne hn.noeq hg) hk
 
@@ -173,13 +177,13 @@ theorem singledash_rewrite_split (name g3 : Str) (m : Mode) (hn : SName name) :
 /-- **SingleDash mode, whole command line**: `-xREST` ≡ `--x=REST`, `-x` ≡ `--x`. -/
 theorem singledash_rewrite_parse (P : Prog) (pre post : List Str) (name g3 : Str)
     (hn : SName name) (hg : G3 g3)
-    (hh : AtHead (run ext .singleDash P pre))
+    (hh : OptStart (run ext .singleDash P pre))
     (hk : Known (run ext .singleDash P pre) ⟨sdHead name, if sdRest name g3 = [] then [] else [sdRest name g3]⟩) :
     ObsEq (parseArgs ext .singleDash P (pre ++ [chDash :: (name ++ g3)] ++ post))
           (parseArgs ext .singleDash P (pre ++ [sdRewrite name g3] ++ post)) := by
   apply parse_of_sim
   simp only [List.foldl_cons, List.foldl_nil]
-  exact same_pair_sim ext .singleDash _ _ _ _ hh.1 hh.2
+  exact same_pair_sim' ext .singleDash _ _ _ _ hh
     (singledash_split name g3 hn hg) (singledash_rewrite_split name g3 .singleDash hn) hk
 
 /-- **Bundling, splitter level**: `-NAME[=V]` splits into one pair per character of NAME (as
@@ -212,7 +216,7 @@ the bundle. -/
 theorem bundling_rewrite_parse (P : Prog) (pre post : List Str) (name g3 : Str) (ls : List Str) (z : Str)
     (hn : SName name) (hnd : ∀ c ∈ name, c ≠ chDash) (hg : G3 g3)
     (hls : explode name = ls ++ [z])
-    (hh : AtHead (run ext .bundling P pre))
+    (hh : OptStart (run ext .bundling P pre))
     (hf : ∀ l ∈ ls, FlagPair (run ext .bundling P pre) ⟨l, []⟩)
     (hz : Known (run ext .bundling P pre) ⟨z, attached g3⟩) :
     ObsEq (parseArgs ext .bundling P (pre ++ [chDash :: (name ++ g3)] ++ post))
@@ -227,7 +231,7 @@ theorem bundling_rewrite_parse (P : Prog) (pre post : List Str) (name g3 : Str) 
     | cons c r =>
       simp at e; subst e
       exact hnd chDash (explode_mem_sub name _ hzmem chDash (by simp)) rfl
-  refine bundle_rewrite_sim ext .bundling _ _ _ _ (ls.map (fun x => ⟨x, []⟩)) ⟨z, attached g3⟩ hh.1 hh.2 ?_ ?_ ?_ ?_ hz
+  refine bundle_rewrite_sim' ext .bundling _ _ _ _ (ls.map (fun x => ⟨x, []⟩)) ⟨z, attached g3⟩ hh ?_ ?_ ?_ ?_ hz
   · rw [bundling_split name g3 hn hg, hls, bundlePairs_append]
   · exact splits_letters name hn hnd ls (fun l hl => by rw [hls]; simp [hl])
   · exact bundling_letter name z g3 hn hzmem hzd hg
@@ -254,6 +258,12 @@ example :
     sdRewrite (b "nfoo") [] = b "--n=foo" ∧
     Known (run Demo.ext .singleDash Demo.prog []) ⟨sdHead (b "nfoo"), [sdRest (b "nfoo") []]⟩ :=
   ⟨⟨by decide, by decide, by decide⟩, Or.inl rfl, ⟨by decide, by decide⟩, by decide, ⟨b "n", by decide⟩⟩
+
+/-- the laws also apply right behind an option that is still collecting optional values: after
+`--opt` (optional string) the parser is at such a position -/
+example : OptStart (run Demo.ext .bundling Demo.prog [b "--opt"]) ∧
+    ¬ AtHead (run Demo.ext .bundling Demo.prog [b "--opt"]) :=
+  ⟨⟨by decide, Or.inr ⟨3, 0, by decide, by decide⟩⟩, fun h => by have := h.2; revert this; decide⟩
 
 end WholeParse
 
